@@ -150,6 +150,22 @@ def api_level(chk, tier):
                     b = G.glob(enc(p), flags=fl, root_dir=os.fsencode(t.root))
                     if [os.fsencode(x) for x in a] != b:
                         chk.violation(dict(obligation='C18.bounded.glob_bytes_root', tree=tname, pattern=str(p), flags=fl), f'glob({p!r}) on {tname}: str {a[:5]} vs bytes {b[:5]}', None)
+                    # the same with the root given as a directory descriptor (scandir on a descriptor yields str names whatever the pattern type is)
+                    fd = os.open(t.root, os.O_RDONLY | os.O_DIRECTORY)
+                    try:
+                        try:
+                            bfd = G.glob(enc(p), flags=fl, dir_fd=fd)
+                        except Exception as e:
+                            bfd = f'{type(e).__name__}: {e}'
+                    finally:
+                        os.close(fd)
+                    n += 1
+                    if bfd != b:
+                        chk.violation(dict(obligation='C18.bounded.glob_bytes_dir_fd', tree=tname, pattern=str(p), flags=fl, witness=str(p)),
+                                      f'glob({enc(p)!r}, dir_fd=<root>) on {tname}: {str(bfd)[:120]} but with root_dir=<bytes root>: {b[:5]}',
+                                      f"import sys, os; sys.path.insert(0, {REPO!r}); sys.path.insert(0, '/verif')\nfrom wcmatch import glob\nfrom vlib.harness import trees\n"
+                                      f"with trees.Tree(trees.NAMED[{tname!r}]) as t:\n    fd = os.open(t.root, os.O_RDONLY | os.O_DIRECTORY)\n    b = glob.glob({enc(p)!r}, flags={fl}, root_dir=os.fsencode(t.root))\n"
+                                      f"    try:\n        a = glob.glob({enc(p)!r}, flags={fl}, dir_fd=fd)\n    except Exception as e:\n        a = repr(e)\n    print(a, b)\n    sys.exit(0 if a == b else 1)\n")
             for fp in ['*.txt', '*', '!*.txt', 'a|!b*', '', None]:
                 for fl in (WM.RV, WM.RV | WM.HD, WM.RV | WM.FP | WM.G):
                     n += 1
